@@ -1352,3 +1352,228 @@ func boolCore(c ssa.Value) (ssa.Value, bool) {
 	}
 	return c, pos
 }
+
+// RunCovGate: "each lookup ... applies the first subtable that matches at a
+// position": a subtable with a Coverage table matches only glyphs its coverage
+// lists.  For every subtable type whose apply method reads a coverage field
+// (a field of type coverage.Table, coverage.Set or a slice of sets), every
+// return of apply that reports a match (a value other than the constant -1)
+// lies behind a lookup in each such field — no path reaches a match without
+// having consulted the coverage.
+func RunCovGate(w *World, r *Report, fns []*ssa.Function) {
+	r.Rule("covgate: in the apply method of every subtable type with coverage fields, each return that reports a match is reachable only through a lookup in every coverage field of the receiver (the glyph at the current position must be covered; class tables or rule sets are no substitute)")
+	isCov := func(t types.Type) bool {
+		// (lists of coverage sets — the format 3 contexts — are looked up once
+		// per context glyph and not at all when the list is empty: not a gate)
+		nt, ok := t.(*types.Named)
+		return ok && nt.Obj().Pkg() != nil && strings.HasSuffix(nt.Obj().Pkg().Path(), "/opentype/coverage")
+	}
+	n := 0
+	for _, fn := range fns {
+		if fn.Name() != "apply" || fn.Signature.Recv() == nil || fn.Blocks == nil {
+			continue
+		}
+		rt := fn.Signature.Recv().Type()
+		if p, ok := rt.(*types.Pointer); ok {
+			rt = p.Elem()
+		}
+		st, ok := rt.Underlying().(*types.Struct)
+		if !ok {
+			continue
+		}
+		var covFields []int
+		for i := 0; i < st.NumFields(); i++ {
+			if isCov(st.Field(i).Type()) {
+				covFields = append(covFields, i)
+			}
+		}
+		if len(covFields) == 0 {
+			continue
+		}
+		recv := fn.Params[0]
+		for _, fi := range covFields {
+			n++
+			key := r.MkKey("covgate", fnName(fn), "coverage field "+st.Field(fi).Name())
+			// blocks that look the field up: Lookup whose map derives from FieldAddr/Field(recv, fi)
+			gate := map[*ssa.BasicBlock]bool{}
+			for _, b := range fn.Blocks {
+				for _, in := range b.Instrs {
+					lk, ok := in.(*ssa.Lookup)
+					if !ok {
+						continue
+					}
+					for v := range backSlice(lk.X) {
+						switch x := v.(type) {
+						case *ssa.FieldAddr:
+							if x.Field == fi && x.X == ssa.Value(recv) {
+								gate[b] = true
+							}
+						case *ssa.Field:
+							if x.Field == fi {
+								if ld, ok := x.X.(*ssa.UnOp); ok && ld.X == ssa.Value(recv) {
+									gate[b] = true
+								}
+								if x.X == ssa.Value(recv) {
+									gate[b] = true
+								}
+							}
+						}
+					}
+				}
+			}
+			// ... and blocks that use the index such a lookup produced (a search
+			// loop that leaves with the coverage index, which then selects the record)
+			derived := map[ssa.Value]bool{}
+			for _, b := range fn.Blocks {
+				if !gate[b] {
+					continue
+				}
+				for _, in := range b.Instrs {
+					if lk, ok := in.(*ssa.Lookup); ok {
+						derived[lk] = true
+					}
+				}
+			}
+			for changed := true; changed; {
+				changed = false
+				for _, b := range fn.Blocks {
+					for _, in := range b.Instrs {
+						v, ok := in.(ssa.Value)
+						if !ok || derived[v] {
+							continue
+						}
+						switch x := in.(type) {
+						case *ssa.Extract:
+							if derived[x.Tuple] && x.Index == 0 {
+								derived[v] = true
+								changed = true
+							}
+						case *ssa.Phi:
+							for _, e := range x.Edges {
+								if derived[e] {
+									derived[v] = true
+									changed = true
+								}
+							}
+						}
+					}
+				}
+			}
+			for _, b := range fn.Blocks {
+				for _, in := range b.Instrs {
+					if ia, ok := in.(*ssa.IndexAddr); ok && derived[ia.Index] {
+						if _, isLk := ia.Index.(*ssa.Lookup); !isLk {
+							gate[b] = true
+						}
+					}
+				}
+			}
+			hasMatch := false
+			for _, b := range fn.Blocks {
+				if ret, ok := b.Instrs[len(b.Instrs)-1].(*ssa.Return); ok && len(ret.Results) == 1 {
+					if c, isC := bconstInt(ret.Results[0]); !isC || c != -1 {
+						hasMatch = true
+					}
+				}
+			}
+			if !hasMatch {
+				n--
+				continue // the method never reports a match (not implemented)
+			}
+			if len(gate) == 0 {
+				r.Fail("covgate", key, w.Pos(fn.Pos()), "the apply method never looks a glyph up in the coverage field "+st.Field(fi).Name()+": glyphs the subtable does not cover are matched", nil)
+				continue
+			}
+			seen := map[*ssa.BasicBlock]bool{}
+			var bad *ssa.Return
+			var walk func(b *ssa.BasicBlock)
+			walk = func(b *ssa.BasicBlock) {
+				if seen[b] || gate[b] || bad != nil {
+					return
+				}
+				seen[b] = true
+				if ret, ok := b.Instrs[len(b.Instrs)-1].(*ssa.Return); ok && len(ret.Results) == 1 {
+					if c, isC := bconstInt(ret.Results[0]); !isC || c != -1 {
+						bad = ret
+						return
+					}
+				}
+				for _, s := range b.Succs {
+					walk(s)
+				}
+			}
+			walk(fn.Blocks[0])
+			if bad != nil {
+				r.Fail("covgate", key, w.Pos(bad.Pos()), "a match is reported on a path that never looks the glyph up in the coverage field "+st.Field(fi).Name()+": glyphs outside the subtable's coverage can be matched (a class table or a rule set says nothing about coverage)", nil)
+			} else {
+				r.OK("covgate", key, w.Pos(fn.Pos()), "every match lies behind a lookup in the coverage")
+			}
+		}
+	}
+	r.Scope["covgate_fields"] = n
+}
+
+// RunEmptyRecord: "each lookup applies the first subtable that matches": a
+// positioning subtable matches when its coverage (and classes) select a
+// record — also when that record adjusts nothing.  An all-zero or empty record
+// is how a font says "no kerning for this pair, and do not look further"; an
+// apply method that reports no match because the value records are empty lets
+// a later subtable position the pair.  No `return -1` of an apply method may
+// depend on a value-record field of the selected record.
+func RunEmptyRecord(w *World, r *Report, fns []*ssa.Function) {
+	r.Rule("emptyrecord: in the apply methods of the positioning subtables no return of -1 (no match) is control-dependent on a value-record field (a *GposValueRecord) of the record that coverage and classes selected: an empty adjustment is still a match and ends the search through the subtables")
+	n := 0
+	for _, fn := range fns {
+		if fn.Name() != "apply" || fn.Signature.Recv() == nil || fn.Blocks == nil {
+			continue
+		}
+		usesRecords := false
+		var cc map[*ssa.BasicBlock][]ssa.Value
+		isVR := func(t types.Type) bool {
+			p, ok := t.Underlying().(*types.Pointer)
+			if !ok {
+				return false
+			}
+			nt, ok := p.Elem().(*types.Named)
+			return ok && nt.Obj().Name() == "GposValueRecord"
+		}
+		for _, b := range fn.Blocks {
+			for _, in := range b.Instrs {
+				if fa, ok := in.(*ssa.FieldAddr); ok {
+					if pt, ok := fa.Type().Underlying().(*types.Pointer); ok && isVR(pt.Elem()) {
+						usesRecords = true
+					}
+				}
+			}
+		}
+		if !usesRecords {
+			continue
+		}
+		n++
+		key := r.MkKey("emptyrecord", fnName(fn), "no-match returns")
+		cc = controlConds(fn)
+		var bad token.Pos
+		for _, b := range fn.Blocks {
+			ret, ok := b.Instrs[len(b.Instrs)-1].(*ssa.Return)
+			if !ok || len(ret.Results) != 1 {
+				continue
+			}
+			if c, isC := bconstInt(ret.Results[0]); !isC || c != -1 {
+				continue
+			}
+			for _, cnd := range cc[b] {
+				for v := range backSlice(cnd) {
+					if ld, ok := v.(*ssa.UnOp); ok && ld.Op == token.MUL && isVR(ld.Type()) {
+						bad = ret.Pos()
+					}
+				}
+			}
+		}
+		if bad.IsValid() {
+			r.Fail("emptyrecord", key, w.Pos(bad), "no match is reported depending on whether the selected record carries value records: a record that adjusts nothing (the font's way to exempt a pair) no longer ends the search, and a later subtable positions the pair", nil)
+		} else {
+			r.OK("emptyrecord", key, w.Pos(fn.Pos()), "no-match returns do not look at the value records")
+		}
+	}
+	r.Scope["emptyrecord_methods"] = n
+}
